@@ -116,6 +116,9 @@ pub struct ClientPlan {
     pub think_ns: u64,
     /// keep the connection open (idle) this long after the last response
     pub linger_ns: u64,
+    /// give up (close, record `gave_up`) this long after connecting; 0 = wait forever
+    #[serde(default)]
+    pub give_up_ns: u64,
 }
 
 #[derive(Clone, Debug, Default, Serialize, Deserialize)]
@@ -132,6 +135,10 @@ pub struct ClientRecord {
     pub t_connect: u64,
     pub t_close_seen: u64,
     pub parse_error: Option<String>,
+    #[serde(default)]
+    pub gave_up: bool,
+    #[serde(default)]
+    pub t_end: u64,
 }
 
 pub struct H1Client {
@@ -188,6 +195,7 @@ impl H1Client {
     fn finish(&mut self, w: &mut World) -> Step {
         if self.fd >= 0 { sys::close(self.fd); self.fd = -1; }
         self.state = 3;
+        self.rec.t_end = w.now;
         w.board_add("clients_done", 1);
         Step::Done
     }
@@ -221,6 +229,12 @@ impl Actor for H1Client {
             }
             1 => {
                 let mut progressed = false;
+                let deadline = if self.plan.give_up_ns > 0 { self.rec.t_connect + self.plan.give_up_ns } else { u64::MAX };
+                if w.now >= deadline {
+                    self.rec.gave_up = true;
+                    self.parser.on_eof(w.now);
+                    return self.finish(w);
+                }
                 // --- read side
                 let want = self.plan.pace.rq.draw(&mut self.rng).min(1 << 20);
                 let mut buf = vec![0u8; want.min(262144)];
@@ -324,6 +338,8 @@ impl Actor for H1Client {
                 if progressed {
                     if let Some(t) = self.plan.pace.gap(w, &mut self.rng) { return Step::Sleep(t); }
                     Step::Progress
+                } else if deadline != u64::MAX {
+                    Step::Idle(deadline)
                 } else {
                     Step::Blocked
                 }
